@@ -156,7 +156,7 @@ func (c *CuckooTraceChecker) Add(traceID string) {
 		// if the channel is full, count this in a metric
 		// but drop it on the floor; we're running so hot
 		// that we can't keep up.
-		c.met.Up(AddQueueFull)
+		c.met.Increment(AddQueueFull)
 	}
 }
 
